@@ -19,6 +19,7 @@ CONSTANTS
   Order <- OrderAsIs
   CheckAccepts = FALSE
   SimCommits = FALSE
+  WithNext = FALSE
   NextTwoLoads = FALSE
 SYMMETRY Sym
 INVARIANT FinalizedMonotonePerReader
